@@ -220,6 +220,8 @@ type Scenario struct {
 	// serialisations taken when the scenario was generated, before any query ran: what the caller supplied
 	SchS   S
 	BlockS map[*schema.BlockSchema]S
+	// cursor offsets that are always queried, in addition to the sampled ones
+	Offsets []int
 }
 
 // schemaS: the main schema as the caller supplied it
